@@ -4,7 +4,7 @@
 From Coq Require Import Reals Lra Lia List ZArith.
 From V Require Import Common.Base Gen.JpegTables_gen JpegDCT.DctQuant JpegDCT.DctIslow JpegDCT.DctBound
   JpegDCT.DctGeometry JpegDCT.DctPipeline JpegDCT.DctProofsA
-  JpegDCT.DctNumDefs JpegDCT.DctNumProofsI JpegDCT.DctNumProofsN JpegDCT.DctNumProofsQ.
+  JpegDCT.DctNumDefs JpegDCT.DctNumDefsF JpegDCT.DctNumProofsI JpegDCT.DctNumProofsE JpegDCT.DctNumProofsN JpegDCT.DctNumProofsQ.
 Import ListNotations.
 Open Scope Z_scope.
 
@@ -165,12 +165,12 @@ End Image.
 
 (* ---------- the whole image ---------- *)
 
-Theorem grey_image_bound : forall w h quality px,
+Theorem grey_image_bound_delta : forall w h quality px,
   1 <= w -> 1 <= h -> 1 <= quality <= 100 ->
   length px = Z.to_nat (w * h) -> Forall (fun v => 0 <= v <= 255) px ->
   forall x y, 0 <= x < w -> 0 <= y < h ->
   (Rabs (IZR (znth (pipeline8 w h 1 quality px) (y * w + x)%Z 0%Z) - IZR (znth px (y * w + x)%Z 0%Z))
-   <= boundGrey (scale_quant_table jpeg_qt_luma quality))%R.
+   <= tableBound (scale_quant_table jpeg_qt_luma quality) + pipe_delta)%R.
 Proof.
   intros w h quality px Hw Hh Hq Hlen Hpx x y Hx Hy.
   rewrite pipeline8_grey, raster_znth by lia.
@@ -193,13 +193,52 @@ Proof.
   2:{ rewrite enc_plane_raster, raster_length. nia. }
   2:{ lia. }
   rewrite enc_plane_raster, raster_nth by lia. rewrite !Z2Nat.id by lia.
-  pose proof (grey_block_quality quality jpeg_qt_luma (extract_block px w bx by_) Hq (or_introl eq_refl)
-                (block_length w px bx by_)
+  assert (HYY : (Z.to_nat yy < 8)%nat) by lia. assert (HXX : (Z.to_nat xx < 8)%nat) by lia.
+  destruct (scale_table_range quality jpeg_qt_luma Hq (or_introl eq_refl)) as [Hql Hqr]. fold ql in Hql, Hqr.
+  assert (Hqr' : forall k, (k < 64)%nat -> 1 <= nth k ql 0 <= 255) by (intros k Hk; apply Hqr; apply nth_In; lia).
+  pose proof (grey_block_bound (extract_block px w bx by_) ql
+                (block_length w px bx by_) Hql
                 (fun k Hk => block_range w h px Hw Hh Hlen Hpx bx by_ k Dx Dy Hk)
-                (Z.to_nat yy) (Z.to_nat xx) ltac:(lia) ltac:(lia)) as H.
-  cbv zeta in H. fold ql in H.
+                Hqr'
+                (Z.to_nat yy) (Z.to_nat xx) HYY HXX) as H.
   rewrite (block_nth w h px Hw Hh Hlen bx by_) in H by lia.
   rewrite !Z2Nat.id in H by lia.
-  replace (src_index h w bx by_ xx yy) with (y * w + x) in H by (unfold src_index; lia).
+  replace (src_index h w bx by_ xx yy) with (y * w + x) in H
+    by (unfold src_index; rewrite !Z.min_l by lia; replace (by_ * 8 + yy) with y by lia; replace (bx * 8 + xx) with x by lia; reflexivity).
   exact H.
+Qed.
+
+Theorem grey_image_bound : forall w h quality px,
+  1 <= w -> 1 <= h -> 1 <= quality <= 100 ->
+  length px = Z.to_nat (w * h) -> Forall (fun v => 0 <= v <= 255) px ->
+  forall x y, 0 <= x < w -> 0 <= y < h ->
+  (Rabs (IZR (znth (pipeline8 w h 1 quality px) (y * w + x)%Z 0%Z) - IZR (znth px (y * w + x)%Z 0%Z))
+   <= boundGrey (scale_quant_table jpeg_qt_luma quality))%R.
+Proof.
+  intros w h quality px Hw Hh Hq Hlen Hpx x y Hx Hy.
+  pose proof (grey_image_bound_delta w h quality px Hw Hh Hq Hlen Hpx x y Hx Hy) as H.
+  pose proof pipe_delta_val. unfold boundGrey. lra.
+Qed.
+
+(* a concrete non-aligned image: 11 x 5, quality 90 *)
+Definition ex_img : list Z := map (fun k => (Z.of_nat k * 37 + 11) mod 256) (seq 0 55).
+
+Lemma ex_img_hyps : 1 <= 11 /\ 1 <= 5 /\ 1 <= 90 <= 100 /\ length ex_img = Z.to_nat (11 * 5) /\
+  Forall (fun v => 0 <= v <= 255) ex_img /\ (0 <= 9 < 11 /\ 0 <= 3 < 5) /\
+  znth (pipeline8 11 5 1 90 ex_img) (3 * 11 + 9) 0 = 28 /\ znth ex_img (3 * 11 + 9) 0 = 29.
+Proof.
+  split; [lia|]. split; [lia|]. split; [lia|]. split; [reflexivity|]. split.
+  - apply Forall_forall. intros v Hv.
+    assert (Hb : forallb (fun v => (0 <=? v) && (v <=? 255)) ex_img = true) by (vm_compute; reflexivity).
+    rewrite forallb_forall in Hb. apply Hb in Hv. apply andb_prop in Hv. destruct Hv as [A B].
+    apply Z.leb_le in A. apply Z.leb_le in B. lia.
+  - split; [lia|]. split; vm_compute; reflexivity.
+Qed.
+
+(* identical geometry: the decoded grey image has exactly w*h samples *)
+Lemma grey_image_length : forall w h quality px, 0 <= w -> 0 <= h ->
+  length (pipeline8 w h 1 quality px) = Z.to_nat (w * h).
+Proof.
+  intros w h quality px Hw Hh. rewrite pipeline8_grey, raster_length.
+  rewrite Z2Nat.inj_mul by lia. lia.
 Qed.
